@@ -6,6 +6,8 @@
 #include <vector>
 #include <exception>
 #include <unistd.h>
+#include <ctime>
+#include <cstdlib>
 #include <sys/personality.h>
 
 // ---- sanitizer defaults -----------------------------------------------------
@@ -18,6 +20,13 @@ extern "C" __attribute__((used, visibility("default"))) const char* __ubsan_defa
 extern "C" __attribute__((used, visibility("default"))) const char* __tsan_default_options() {
     return "halt_on_error=0:exitcode=0:report_signal_unsafe=0:history_size=4:second_deadlock_stack=0";
 }
+
+// ---- simulated clock: libxalan-c's PLT entries for clock/time/rand bind to these definitions
+namespace sim { SimClock g_clock; bool g_traceMode = false; }
+extern "C" __attribute__((used, visibility("default"))) clock_t clock(void) noexcept { return (clock_t)sim::g_clock.tick(); }
+extern "C" __attribute__((used, visibility("default"))) time_t time(time_t* t) noexcept { ++sim::g_clock.timeCalls; time_t v = (time_t)sim::g_clock.fixedTime; if (t) *t = v; return v; }
+extern "C" __attribute__((used, visibility("default"))) int rand(void) noexcept { return (int)((++sim::g_clock.randCalls * 1103515245u + 12345u) & 0x7fffffff); }
+extern "C" __attribute__((used, visibility("default"))) void srand(unsigned) noexcept {}
 
 // ---- UBSan report capture ---------------------------------------------------
 static std::vector<std::string> g_ubsan;
@@ -58,6 +67,7 @@ static void emit(const Result& r, const Json* plan, const Trace& tr) {
 static void runOne(Driver& d, const Json& plan, uint64_t run, uint64_t seed, bool withPlan, bool keepTrace) {
     Result res; res.run = run; res.seed = seed; Trace tr; tr.keep = keepTrace;
     ubsanReset();
+    g_clock.reset();
     try { d.execute(plan, res, tr); }
     catch (const std::exception& e) { res.harness(std::string("exception escaped driver: ") + e.what()); }
     catch (...) { res.harness("unknown exception escaped driver"); }
@@ -91,7 +101,7 @@ int driverMain(int argc, char** argv, Driver& d) {
         else if (a == "--worker") { std::string v = nxt(); sscanf(v.c_str(), "%u/%u", &w, &n); }
         else if (a == "--exec-plan") { execPlan = nxt(); mode = "exec"; }
         else if (a == "--dump-plan") { dumpRun = strtoull(nxt().c_str(), nullptr, 0); mode = "dump"; }
-        else if (a == "--trace") keepTrace = true;
+        else if (a == "--trace") { keepTrace = true; g_traceMode = true; }
         else if (a == "--serve") mode = "serve";
         else if (a == "--sample-plans") samplePlans = (unsigned)strtoul(nxt().c_str(), nullptr, 0);
         else { fprintf(stderr, "unknown argument %s\n", a.c_str()); return 2; }
